@@ -201,6 +201,9 @@ func (rs *RequestServer) Serve() error {
 
 	wg.Wait() // wait for all workers to exit
 
+	// wait for the responses still queued in the packet manager to be sent
+	<-rs.pktMgr.done
+
 	rs.mu.Lock()
 	defer rs.mu.Unlock()
 
